@@ -22,11 +22,11 @@ func init() {
 		Cases: func(tier string) int {
 			switch tier {
 			case "thorough":
-				return 400000
+				return 1000000
 			case "race":
 				return 20000
 			}
-			return 40000
+			return 150000
 		},
 		Run:            c13Run,
 		Floor:          func(tier string) int { return 3000 },
